@@ -122,9 +122,26 @@ def outcome(fn):
 
 
 def mk_parser(job):
-    from pytableaux.lang import Parser, Predicates
+    from pytableaux.lang import Parser, Predicate, Predicates
     preds = [tuple(p) for p in job.get('preds', [])]
-    store = Predicates.Frozen(preds) if job.get('frozen') else Predicates(preds)
+    if job.get('frozen') or not preds:
+        store = Predicates.Frozen(preds) if job.get('frozen') else Predicates(preds)
+    else:
+        # "predicate-store contents", not their history: the same declarations reached by construction,
+        # by in-place replacement of a same-symbol predicate of another arity, or by add/remove/insert
+        route = sum(map(ord, json.dumps(job, sort_keys=True))) % 3
+        first = preds[0]
+        decoy = (first[0], first[1], first[2] + 1)
+        if route == 0:
+            store = Predicates(preds)
+        elif route == 1:
+            store = Predicates([decoy] + preds[1:])
+            store[0] = first
+        else:
+            store = Predicates([decoy] + preds[1:])
+            store.remove(Predicate(decoy))
+            store.insert(0, first)
+        assert [tuple(q.spec) for q in store] == preds, 'store route changed the declarations'
     opts = dict(job.get('opts') or {})
     return Parser(job['notation'], store, auto_preds=bool(job.get('auto', True)), **opts)
 
